@@ -427,6 +427,7 @@ func (e *Exec) evalUnary(st *State, n *ast.UnaryExpr) Value {
 			e.storeLoc(st, loc, v)
 			st.assume(mkEq(dynType(ref), typeIdTerm(info.TypeOf(n))))
 			e.ghostInit(st, t, Scalar{ref, info.TypeOf(n)})
+			e.assumeTypeInv(st, Scalar{ref, info.TypeOf(n)})
 			return Scalar{ref, info.TypeOf(n)}
 		}
 		xt := info.TypeOf(n.X)
@@ -853,6 +854,9 @@ func (e *Exec) box(st *State, v Value, to types.Type) Value {
 		}
 		switch reprOf(x.Typ) {
 		case rRef:
+			if pv, ok := e.promotedIface(st, x, to); ok {
+				return pv
+			}
 			if _, isPtr := x.Typ.Underlying().(*types.Pointer); isPtr {
 				// pointer stored in interface: nil pointer gives a non-nil interface; we keep the
 				// reference and record the dynamic type for non-nil references.
@@ -866,6 +870,7 @@ func (e *Exec) box(st *State, v Value, to types.Type) Value {
 			r := e.freshRef(st, "boxed")
 			st.assume(mkEq(dynType(r), typeIdTerm(x.Typ)))
 			st.assume(mkEq(mkApp("unbox!str", SStr, r), x.T))
+			st.assume(mkNot(mkApp("spec!encok", SBool, r))) // strings have no fixed-size encoding
 			return Scalar{r, to}
 		case rInt:
 			r := e.freshRef(st, "boxed")
@@ -891,6 +896,7 @@ func (e *Exec) box(st *State, v Value, to types.Type) Value {
 		r := e.freshRef(st, "boxed")
 		st.assume(mkEq(dynType(r), typeIdTerm(vt)))
 		e.boxedVals[r.Name] = v
+		e.encodingFacts(st, r, v)
 		return Scalar{r, to}
 	case ClosureVal:
 		r := e.freshRef(st, "boxedfn")
@@ -1055,5 +1061,159 @@ func (e *Exec) ghostInit(st *State, t types.Type, this Value) {
 		v := specTerm(env.eval(gi.Expr))
 		m := st.ghostVar(gi.Name, specSort(g.Type))
 		st.ghost[gi.Name] = mkStore(m, asTerm(this), v)
+	}
+}
+
+// promotedIface: a pointer to a module struct converted to an interface whose methods are all
+// promoted from one embedded interface-typed field behaves as that field's value.
+func (e *Exec) promotedIface(st *State, x Scalar, to types.Type) (Value, bool) {
+	pt, ok := x.Typ.Underlying().(*types.Pointer)
+	if !ok || reprOf(pt.Elem()) != rStruct {
+		return nil, false
+	}
+	it, ok := to.Underlying().(*types.Interface)
+	if !ok || it.NumMethods() == 0 {
+		return nil, false
+	}
+	var field *types.Var
+	for i := 0; i < it.NumMethods(); i++ {
+		obj, idx, _ := types.LookupFieldOrMethod(x.Typ, true, it.Method(i).Pkg(), it.Method(i).Name())
+		if obj == nil || len(idx) != 2 {
+			return nil, false
+		}
+		f := pt.Elem().Underlying().(*types.Struct).Field(idx[0])
+		if !f.Embedded() {
+			return nil, false
+		}
+		if _, isI := f.Type().Underlying().(*types.Interface); !isI {
+			return nil, false
+		}
+		if field != nil && field != f {
+			return nil, false
+		}
+		field = f
+	}
+	loc := fieldLoc(&HeapLoc{Fam: heapFamily(pt.Elem()), Ref: x.T, Typ: pt.Elem()}, field.Name(), field.Type())
+	v := e.loadLoc(st, loc)
+	return Scalar{asTerm(v), to}, true
+}
+
+// encodingFacts states the encoding/binary layout of a fixed-size struct value boxed into an
+// interface: encok(r), enclen(r) and the field words inside encbytes(r) (big-endian view; the
+// byte order of a particular Write is handled by the assumed contract of binary.Write, which
+// the code base only calls with BigEndian).
+func (e *Exec) encodingFacts(st *State, r *Term, v Value) {
+	sv, ok := v.(StructVal)
+	if !ok {
+		return
+	}
+	var fs []fixedField
+	var size int64
+	if !fixedLayout(sv.Typ, "", &size, &fs) {
+		st.assume(mkNot(mkApp("spec!encok", SBool, r)))
+		return
+	}
+	st.assume(mkApp("spec!encok", SBool, r))
+	st.assume(mkEq(mkApp("spec!enclen", SInt, r), mkInt64(size)))
+	enc := mkApp("spec!encbytes", SArray(SInt), r)
+	// group array fields
+	type arrRun struct {
+		base string
+		off  int64
+		n    int64
+	}
+	runs := map[string]*arrRun{}
+	for _, f := range fs {
+		if f.blank {
+			for k := int64(0); k < f.width; k++ {
+				st.assume(mkEq(mkSelect(enc, mkInt64(f.off+k)), tZero))
+			}
+			continue
+		}
+		if i := indexByte(f.path, '['); i >= 0 {
+			b := f.path[:i]
+			ar := runs[b]
+			if ar == nil {
+				ar = &arrRun{base: b, off: f.off}
+				runs[b] = ar
+			}
+			ar.n++
+			continue
+		}
+		t := e.leafAt(v, f.path)
+		if t == nil {
+			continue
+		}
+		val := t
+		if t.Sort.Kind == KBool {
+			val = mkIte(t, tOne, tZero)
+		}
+		st.assume(mkEq(decodeWord(enc, tZero, f.off, f.width, false, f.typ), val))
+		for k := int64(0); k < f.width; k++ {
+			b := mkSelect(enc, mkInt64(f.off+k))
+			st.assume(mkAnd(mkLe(tZero, b), mkLe(b, mkInt64(255))))
+		}
+	}
+	for _, ar := range runs {
+		av, ok := e.valueAt(v, ar.base).(ArrayVal)
+		if !ok {
+			continue
+		}
+		et := av.Typ.Underlying().(*types.Array).Elem()
+		if reprOf(et) != rInt {
+			continue
+		}
+		inner := mkSelect(st.memMap(memFamily(et), SInt), av.Arr)
+		x := mkVar("x!e", SInt)
+		st.assume(mkForall([]*Term{x}, mkImplies(mkAnd(mkLe(mkInt64(ar.off), x), mkLt(x, mkInt64(ar.off+ar.n))),
+			mkEq(mkSelect(enc, x), mkSelect(inner, mkSub(x, mkInt64(ar.off))))), mkSelect(enc, x)))
+	}
+}
+
+func indexByte(s string, c byte) int {
+	for i := 0; i < len(s); i++ {
+		if s[i] == c {
+			return i
+		}
+	}
+	return -1
+}
+
+// valueAt follows a field path (".A.B") inside a struct value.
+func (e *Exec) valueAt(v Value, path string) Value {
+	cur := v
+	for path != "" && path[0] == '.' {
+		j := 1
+		for j < len(path) && path[j] != '.' && path[j] != '[' {
+			j++
+		}
+		sv, ok := cur.(StructVal)
+		if !ok {
+			return nil
+		}
+		cur = sv.Fields[path[1:j]]
+		path = path[j:]
+	}
+	return cur
+}
+
+// assumeTypeInv assumes the declared type invariants of a *T value (non-nil case).
+func (e *Exec) assumeTypeInv(st *State, v Value) {
+	s, ok := v.(Scalar)
+	if !ok || s.Typ == nil {
+		return
+	}
+	pt, ok := s.Typ.Underlying().(*types.Pointer)
+	if !ok {
+		return
+	}
+	named, ok := types.Unalias(pt.Elem()).(*types.Named)
+	if !ok || named.Obj().Pkg() == nil {
+		return
+	}
+	invs := e.prog.specs.TypeInvs[named.Obj().Pkg().Path()+"#"+named.Obj().Name()]
+	for _, inv := range invs {
+		env := &SpecEnv{e: e, st: st, old: st, vars: map[string]Value{"this": v}, pkg: named.Obj().Pkg(), what: "typeinv " + named.Obj().Name()}
+		st.assume(mkImplies(mkNe(s.T, tZero), env.evalBool(inv)))
 	}
 }
